@@ -89,7 +89,7 @@ fcp_parser = Lark(
     enum: "enum" identifier "{" enum_field* "}"
     enum_field : identifier "=" value ","
 
-    impl: "impl" identifier "for" identifier "as"? identifier? "{" (extension_field | signal_block)+ "}"
+    impl: "impl" identifier "for" identifier _AS? identifier? "{" (extension_field | signal_block)+ "}"
     signal_block: "signal" identifier "{" extension_field+ "}" ","
     extension_field: identifier ":" value ","
 
@@ -105,6 +105,9 @@ fcp_parser = Lark(
     number: SIGNED_NUMBER
     value : array | identifier | number | string
     array: "[" value ("," value)* "]"
+
+    // the optional "as" ends at a word boundary: in "impl can for Motor assist {" the name is "assist"
+    _AS: /as(?![A-Za-z0-9_])/
 
     // builtin type names end at a word boundary: "u8x" or "string" are identifiers
     STR_TYPE: /str(?![A-Za-z0-9_])/
